@@ -87,10 +87,30 @@ Proof.
   destruct (arith_num op a b); [|reflexivity]. destruct (result_is_date op lk rk); reflexivity.
 Qed.
 
-Theorem nonnumeric_text_is_VALUE op s v : 0 <= op <= 3 ->
+Theorem nonnumeric_text_is_VALUE op s v : 0 <= op <= 3 -> text_number s = None ->
   arith_scalar op (VText s) v = Ret (VErr EVALUE) /\ arith_scalar op v (VText s) = Ret (VErr EVALUE).
 Proof.
-  intros _. split; unfold arith_scalar; cbn [classify kind_of]; [reflexivity|]. destruct (kind_of (classify v)); reflexivity.
+  intros _ Hs. split; unfold arith_scalar; cbn [classify]; rewrite Hs; cbn [kind_of]; [reflexivity|].
+  destruct (kind_of (classify v)); reflexivity.
+Qed.
+(* text spelling a number acts as that number *)
+Theorem numeric_text_value s n : text_number s = Some n -> classify (VText s) = OpNum n /\ opnum (classify (VText s)) = Some n.
+Proof. intros H. cbn [classify]. rewrite H. split; reflexivity. Qed.
+Lemma split_dot_digits s : forall acc, all_digits_z s = true -> split_dot_aux s acc = (rev acc ++ s, None).
+Proof.
+  induction s as [|c r IH]; intros acc H; cbn [split_dot_aux]; [rewrite app_nil_r; reflexivity|].
+  cbn [all_digits_z] in H. apply andb_prop in H. destruct H as [H1 H2].
+  assert ((c =? 46) = false) as -> by (unfold is_digit in H1; lia).
+  rewrite IH by exact H2. cbn [rev]. rewrite <- app_assoc. reflexivity.
+Qed.
+Theorem integer_text_value s : s <> [] -> all_digits_z s = true -> text_number s = Some (NI (digits_value s)).
+Proof.
+  intros Hne Hd. unfold text_number.
+  assert (match s with 45 :: r => (true, r) | 43 :: r => (false, r) | _ => (false, s) end = (false, s)) as ->.
+  { destruct s as [|c r]; [congruence|]. cbn [all_digits_z] in Hd. apply andb_prop in Hd. destruct Hd as [H1 _].
+    unfold is_digit in H1. destruct (Z.eq_dec c 45); [lia|]. destruct (Z.eq_dec c 43); [lia|].
+    destruct c as [|p|p]; try reflexivity. repeat (destruct p as [p|p|]; try reflexivity; try lia). }
+  rewrite split_dot_digits by exact Hd. cbn [rev app]. rewrite Hd. destruct s; [congruence|reflexivity].
 Qed.
 
 Theorem zero_divisor l r a b lk rk : kind_of (classify l) = Some lk -> kind_of (classify r) = Some rk ->
